@@ -375,6 +375,11 @@ class Ctx:
         self.inconclusive = []
         self.rng = random.Random(self.seed)
         self.work = os.path.join(BUILD, "work", pid)
+        # one run of a given check at a time (runs share build/work/<id>): later runs wait for the lock
+        os.makedirs(os.path.join(BUILD, "work"), exist_ok=True)
+        import fcntl
+        self._lock = open(os.path.join(BUILD, "work", pid + ".lock"), "w")
+        fcntl.flock(self._lock, fcntl.LOCK_EX)
         shutil.rmtree(self.work, ignore_errors=True)
         os.makedirs(self.work, exist_ok=True)
         self.replays = os.path.join(VERIF, "replays")
